@@ -84,74 +84,104 @@ func lower(c byte) byte {
 	return c
 }
 
-// match reports whether p can consume a prefix of s[i:] such that k accepts the rest.
-func (p *Pat) match(s string, i int, k func(int) bool) bool {
+// ends returns the set of positions at which p can stop when it starts matching s at position i
+// (a position-set evaluation with memoisation: polynomial even for nested quantifiers such as
+// (.*)*, on which a backtracking matcher takes exponential time).
+func (p *Pat) ends(s string, i int, fold bool, memo map[*Pat]map[int][]bool) []bool {
+	if m, ok := memo[p]; ok {
+		if r, ok := m[i]; ok {
+			return r
+		}
+	} else {
+		memo[p] = map[int][]bool{}
+	}
+	out := make([]bool, len(s)+1)
+	eq := func(a, b byte) bool {
+		if fold {
+			return lower(a) == lower(b)
+		}
+
+		return a == b
+	}
 	switch p.Op {
 	case "lit":
-		return i < len(s) && lower(s[i]) == lower(p.Lit[0]) && k(i+1)
+		if i < len(s) && eq(s[i], p.Lit[0]) {
+			out[i+1] = true
+		}
 	case "class":
-		if i >= len(s) {
-			return false
-		}
-		for j := 0; j < len(p.Lit); j++ {
-			if lower(p.Lit[j]) == lower(s[i]) {
-				return k(i + 1)
+		if i < len(s) {
+			for j := 0; j < len(p.Lit); j++ {
+				if eq(p.Lit[j], s[i]) {
+					out[i+1] = true
+				}
 			}
 		}
-
-		return false
 	case "dot":
-		return i < len(s) && s[i] != '\n' && k(i+1)
-	case "cat":
-		var step func(n int, pos int) bool
-		step = func(n int, pos int) bool {
-			if n == len(p.Subs) {
-				return k(pos)
-			}
-
-			return p.Subs[n].match(s, pos, func(next int) bool { return step(n+1, next) })
+		if i < len(s) && s[i] != '\n' {
+			out[i+1] = true
 		}
-
-		return step(0, i)
+	case "cat":
+		cur := make([]bool, len(s)+1)
+		cur[i] = true
+		for _, sub := range p.Subs {
+			next := make([]bool, len(s)+1)
+			for pos, ok := range cur {
+				if !ok {
+					continue
+				}
+				for e, ok2 := range sub.ends(s, pos, fold, memo) {
+					if ok2 {
+						next[e] = true
+					}
+				}
+			}
+			cur = next
+		}
+		out = cur
 	case "alt":
 		for _, sub := range p.Subs {
-			if sub.match(s, i, k) {
-				return true
-			}
-		}
-
-		return false
-	case "group", "anchored":
-		return p.Subs[0].match(s, i, k)
-	case "star":
-		var loop func(pos int) bool
-		loop = func(pos int) bool {
-			if k(pos) {
-				return true
-			}
-
-			return p.Subs[0].match(s, pos, func(next int) bool { return next > pos && loop(next) })
-		}
-
-		return loop(i)
-	case "plus":
-		var loop func(pos int) bool
-		loop = func(pos int) bool {
-			return p.Subs[0].match(s, pos, func(next int) bool {
-				if k(next) {
-					return true
+			for e, ok := range sub.ends(s, i, fold, memo) {
+				if ok {
+					out[e] = true
 				}
-
-				return next > pos && loop(next)
-			})
+			}
 		}
-
-		return loop(i)
+	case "group", "anchored":
+		out = p.Subs[0].ends(s, i, fold, memo)
 	case "opt":
-		return k(i) || p.Subs[0].match(s, i, k)
+		out[i] = true
+		for e, ok := range p.Subs[0].ends(s, i, fold, memo) {
+			if ok {
+				out[e] = true
+			}
+		}
+	case "star", "plus":
+		// closure: positions reachable by one or more iterations
+		reach := make([]bool, len(s)+1)
+		frontier := []int{i}
+		seen := map[int]bool{i: true}
+		for len(frontier) > 0 {
+			pos := frontier[0]
+			frontier = frontier[1:]
+			for e, ok := range p.Subs[0].ends(s, pos, fold, memo) {
+				if !ok {
+					continue
+				}
+				reach[e] = true
+				if !seen[e] {
+					seen[e] = true
+					frontier = append(frontier, e)
+				}
+			}
+		}
+		out = reach
+		if p.Op == "star" {
+			out[i] = true
+		}
 	}
+	memo[p][i] = out
 
-	return false
+	return out
 }
 
 // Matches reports whether the pattern matches the whole string, ASCII-case-insensitively.  A nil
@@ -161,7 +191,7 @@ func (p *Pat) Matches(s string) bool {
 		return true
 	}
 
-	return p.match(s, 0, func(i int) bool { return i == len(s) })
+	return p.ends(s, 0, true, map[*Pat]map[int][]bool{})[len(s)]
 }
 
 // MatchesCase is Matches without case folding (the lister's path patterns are case-sensitive).
@@ -170,71 +200,7 @@ func (p *Pat) MatchesCase(s string) bool {
 		return true
 	}
 
-	return p.matchCase(s, 0, func(i int) bool { return i == len(s) })
-}
-
-func (p *Pat) matchCase(s string, i int, k func(int) bool) bool {
-	switch p.Op {
-	case "lit":
-		return i < len(s) && s[i] == p.Lit[0] && k(i+1)
-	case "class":
-		if i >= len(s) {
-			return false
-		}
-
-		return strings.IndexByte(p.Lit, s[i]) >= 0 && k(i+1)
-	case "cat":
-		var step func(n int, pos int) bool
-		step = func(n int, pos int) bool {
-			if n == len(p.Subs) {
-				return k(pos)
-			}
-
-			return p.Subs[n].matchCase(s, pos, func(next int) bool { return step(n+1, next) })
-		}
-
-		return step(0, i)
-	case "alt":
-		for _, sub := range p.Subs {
-			if sub.matchCase(s, i, k) {
-				return true
-			}
-		}
-
-		return false
-	case "group", "anchored":
-		return p.Subs[0].matchCase(s, i, k)
-	case "star":
-		var loop func(pos int) bool
-		loop = func(pos int) bool {
-			if k(pos) {
-				return true
-			}
-
-			return p.Subs[0].matchCase(s, pos, func(next int) bool { return next > pos && loop(next) })
-		}
-
-		return loop(i)
-	case "plus":
-		var loop func(pos int) bool
-		loop = func(pos int) bool {
-			return p.Subs[0].matchCase(s, pos, func(next int) bool {
-				if k(next) {
-					return true
-				}
-
-				return next > pos && loop(next)
-			})
-		}
-
-		return loop(i)
-	case "opt":
-		return k(i) || p.Subs[0].matchCase(s, i, k)
-	case "dot":
-		return i < len(s) && s[i] != '\n' && k(i+1)
-	}
-
-	return false
+	return p.ends(s, 0, false, map[*Pat]map[int][]bool{})[len(s)]
 }
 
 // Sample draws a member of the pattern's language (small repetition counts).
